@@ -3,7 +3,7 @@
 //! Validated natively against published perft numbers (spec/selfcheck.rs) — it is the
 //! definition of "rules of chess" used by the contracts, not verified code.
 #![allow(dead_code)]
-use super::geom::*;
+use super::verif_geom::*;
 
 pub const PAWN: u8 = 0;
 pub const KNIGHT: u8 = 1;
